@@ -542,6 +542,7 @@ func (ft *FT) oblige(o *Obligation) {
 		return
 	}
 	o.Fn = ft.fn.String()
+	o.nfacts = len(ft.facts)
 	if len(ft.abstractions) > 0 {
 		o.Abstracted = true
 	}
